@@ -136,7 +136,17 @@ def run_item(harness_name: str, item: Dict[str, Any]) -> Dict[str, Any]:
 
 def _worker(harness_name: str, tasks: Any, results: Any) -> None:
     sys.setrecursionlimit(10000)
+    parent = os.getppid()
+    try:   # die with the parent (a check that is killed from outside must not leave workers behind)
+        import ctypes
+        import signal
+
+        ctypes.CDLL("libc.so.6", use_errno=True).prctl(1, signal.SIGKILL)   # PR_SET_PDEATHSIG
+    except Exception:  # noqa: BLE001
+        pass
     while True:
+        if os.getppid() != parent:
+            os._exit(0)
         try:
             idx, item = tasks.get(timeout=1.0)
         except queue.Empty:
@@ -327,6 +337,14 @@ def run_property(prop: str, harness_name: str, tier: str, seed: int, jobs: int, 
         if p.is_alive():
             p.terminate()
 
+    # the task queue may still hold items nobody will read (budget exhausted, workers terminated): without this the
+    # queue's feeder thread blocks interpreter exit forever on a full pipe
+    for q in (tasks, results):
+        try:
+            q.cancel_join_thread()
+            q.close()
+        except Exception:  # noqa: BLE001
+            pass
     return summarise(prop, harness_name, mod, tier, seed, items, done, time.time() - t_start)
 
 
@@ -494,4 +512,7 @@ def main(argv: Optional[List[str]] = None) -> int:
 
 
 if __name__ == "__main__":
-    sys.exit(main())
+    rc = main()
+    sys.stdout.flush()
+    sys.stderr.flush()
+    os._exit(rc)      # worker processes / queue threads must never keep a finished check alive
